@@ -186,7 +186,7 @@ func ecCurveOf(alg int) elliptic.Curve {
 }
 
 func genSigOps(r *rand.Rand, n int) []string {
-	var out []string
+	var out, extra []string // extra: appended after the rest
 	for i := 0; i < n; i++ {
 		if i%4 == 0 { // the signature codec at and around the fixed length, with leading-zero halves; integers at the size limit
 			ca := []int{iana.AlgorithmES256, iana.AlgorithmES384, iana.AlgorithmES512}[r.Intn(3)]
@@ -224,6 +224,22 @@ func genSigOps(r *rand.Rand, n int) []string {
 			}
 			ktyOverride = ""
 			out = append(out, "key.factory Signer "+t, "key.factory Verifier "+t, "sig.verifierkey "+t, fmt.Sprintf("sig.sign %s %s | same", hx(randBytes(r, 5)), t))
+		}
+		if i%25 == 3 {
+			// fixed slots, every signature algorithm in turn: messages beyond 32 KiB (where a pre-hashing or streaming
+			// implementation would change gear) signed by the library and checked by the reference, and the other way round
+			r2 := rand.New(rand.NewSource(int64(i)*15485863 + 11))
+			a2 := sigAlgs[(i/25)%len(sigAlgs)]
+			big := randBytes(r2, []int{32769, 49152, 65536, 65537, 100003}[(i/25/len(sigAlgs))%5])
+			if a2 == iana.AlgorithmEdDSA {
+				k2 := genEdKey(r2)
+				t2 := k2.tokens(r2, 0, nil)
+				sg := goed25519.Sign(goed25519.NewKeyFromSeed(k2.seed), big)
+				extra = append(extra, fmt.Sprintf("sig.sign %s %s | same", hx(big), t2), fmt.Sprintf("sig.verify %s %s %s | same", hx(big), hx(sg), t2))
+			} else {
+				k2 := genEcScalar(r2, a2)
+				extra = append(extra, fmt.Sprintf("sig.sign %s %s | same", hx(big), k2.tokens(r2, 0, nil)))
+			}
 		}
 		alg := sigAlgs[r.Intn(len(sigAlgs))]
 		data := randBytes(r, msgLen(r, i%40 == 0))
@@ -383,5 +399,5 @@ func genSigOps(r *rand.Rand, n int) []string {
 			out = append(out, fmt.Sprintf("seq sig.verify %s %s %s | same ;; sig.verify %s %s %s | same", hx(data), hx(sig), k.tokens(r, 2, kid), hx(data), hx(sig), tb))
 		}
 	}
-	return out
+	return append(out, extra...)
 }
